@@ -4,6 +4,7 @@ set -e
 cd "$(dirname "$0")"
 mkdir -p evidence replays
 cd lean
+/venv/bin/python ../tools/extract_tables.py
 lake build Ramses ramses-model 2>&1 | grep -v "^✔" | tail -40
 test -x .lake/build/bin/ramses-model
 echo "setup ok"
